@@ -25,14 +25,17 @@ def cfg_text(c, export=False, liveness=False, invariants=True):
     for k in ("V7", "TokenMode", "SeqStart", "Sizes", "Senders", "MaxVital", "MaxNV", "MaxConnless",
               "MaxInFlight", "MaxFaults", "MaxClock", "MaxForge", "MaxDisc", "Reasons", "InitOnline"):
         lines.append("  %s = %s" % (k, s(c[k])))
-    lines += ["CONSTRAINT Constr", "VIEW View"]
+    lines += ["CONSTRAINT Constr"]
+    if not liveness:
+        lines.append("VIEW View")      # TLC does not combine VIEW with liveness checking
     if export:
         lines.append("ACTION_CONSTRAINT Export")
     else:
-        if invariants:
+        if invariants and not liveness:
             lines.append("INVARIANTS C01 C04 C02Deadline C03Tokens")
-            lines.append("PROPERTIES C04Refusal C03Inert")
+            lines.append("PROPERTIES C04Refusal C03Inert ChannelSpec")
         if liveness:
+            lines.append("INVARIANTS C02Deadline")
             lines.append("PROPERTIES Progress")
     return "\n".join(lines) + "\n"
 
@@ -102,3 +105,340 @@ def run_parallel(jobs, max_workers):
     with concurrent.futures.ThreadPoolExecutor(max_workers=max_workers) as ex:
         futs = [ex.submit(fn, *args) for fn, args in jobs]
         return [f.result() for f in futs]
+
+
+# ----------------------------------------------------------------------------- judgement
+
+PROP_OF_REASON = (("C01:", "C01"), ("C03:", "C03"), ("C02:", "C02"), ("C04/C02:", "C04"), ("C04:", "C04"))
+
+
+def reason_property(why):
+    for pre, p in PROP_OF_REASON:
+        if why.startswith(pre):
+            return p
+    return "C04"
+
+
+def judge_trace(trace_path, timeout=600):
+    """Run ChannelTrace on an observable trace (many runs, each starting with a reset line).
+    Returns (number of runs, list of {run, line, why})."""
+    ok, res = core.validate_trace("ChannelTrace.tla", "ChannelTrace.cfg", trace_path, cwd=SPECDIR, timeout=timeout)
+    verdict = None
+    for line in res.out.splitlines():
+        if line.startswith('<<"VERDICT"'):
+            s = line[line.index(',') + 1:].strip()
+            s = s[:s.rindex('>>')].strip()
+            verdict = json.loads(json.loads(s))
+    if verdict is None or not ok:
+        raise core.ToolError("ChannelTrace did not produce a verdict: %s" % res.out[-1500:])
+    return verdict["runs"], verdict["bad"], res
+
+
+def judge_summary(ctx, summary, prop):
+    """Decide what the deviations found by a replay mean for property `prop`.
+    Returns number of violations reported for prop."""
+    mode = {k: summary["cfg"][k] for k in ("V7", "TokenMode", "SeqStart", "InitOnline")}
+    if summary.get("hang"):
+        case = summary.get("case", "")
+        try:
+            case = json.loads(case)
+        except Exception:
+            pass
+        if prop == "C02":
+            ctx.report("hang:%s" % summary["name"], "C02: a call into the connection layer did not return (watchdog)",
+                       {"mode": mode, "schedule": case})
+            return 1
+        ctx.report_drift("exploration of %s cut short: a call into the library did not return (decided by C02)" % summary["name"])
+        return 0
+    cands = summary.get("candidates", [])
+    if not cands:
+        return 0
+    nruns, bad, res = judge_trace(summary["cand_file"])
+    ctx.coverage["traces_validated_against_impl"] += nruns
+    badruns = {b["run"]: b for b in bad}
+    nviol = 0
+    for i, c in enumerate(cands, start=1):
+        b = badruns.get(i)
+        if b is None:
+            ctx.report_drift("%s: code deviates from the detailed spec (%s %s) but the property-level spec accepts the run: %s"
+                             % (summary["name"], c["class"], c["field"], json.dumps(c["path"])[:300]))
+            continue
+        p = reason_property(b["why"])
+        if p == prop:
+            first = c["path"][-1].get("a", "?") if c["path"] else "?"
+            key = "%s|%s|%s|%s" % (b["why"][:60], "v7" if mode["V7"] else ("v6tok" if mode["TokenMode"] else "v6plain"), c["class"], first)
+            if ctx.report(key, b["why"], {"mode": mode, "path": c["path"], "expected": c["expected"], "got": c["got"]}):
+                nviol += 1
+        else:
+            ctx.note("%s: a run violates %s (%s); reported by that property's check" % (summary["name"], p, b["why"][:80]))
+    return nviol
+
+
+def account(ctx, summary):
+    if summary.get("hang"):
+        return
+    ctx.coverage["transitions"] += summary["transitions"]
+    ctx.coverage["states"] += summary["states"]
+    ctx.coverage["evaluations"] += summary["transitions"]
+    ctx.coverage["distinct_nontrivial"] += summary["states"]
+    ctx.add_run("export+replay " + summary["name"], transitions=summary["transitions"], states=summary["states"],
+                mismatches=summary["mismatches"], actions=summary["actions"], wall_s=round(summary["wall_s"], 1),
+                constants={k: (sorted(v) if isinstance(v, (set, frozenset)) else v) for k, v in summary["cfg"].items()})
+    for s in summary.get("samples", [])[:2]:
+        ctx.sample({"config": summary["name"], "schedule": s["schedule"], "result": s["result"]})
+
+
+def replay_file(ctx, prop, path):
+    """./check <ID> --replay <file>: re-execute the stored schedule on the real code and re-judge it."""
+    rep = json.load(open(path))["replay"]
+    bins = core.build_harness(["vh-conn"])
+    mode = rep["mode"]
+    sched = rep.get("path") or (rep.get("schedule") or {}).get("path", [])
+    if isinstance(rep.get("schedule"), dict) and "act" in rep["schedule"]:
+        sched = sched + [rep["schedule"]["act"]]
+    f = os.path.join(ctx.workdir, "replay_schedule.json")
+    json.dump({"path": sched}, open(f, "w"))
+    cmd = [os.path.join(bins, "vh-conn"), "schedule", "--file", f, "--suffix", "120",
+           "--v7", "1" if mode["V7"] else "0", "--token-mode", "1" if mode["TokenMode"] else "0",
+           "--seq-start", str(mode["SeqStart"]), "--init-online", "1" if mode["InitOnline"] else "0"]
+    rc, out = core.run_harness(cmd, timeout=120)
+    if rc == 97:
+        ctx.report("hang:replay", "C02: a call into the connection layer did not return (watchdog)", rep)
+        return
+    tr = os.path.join(ctx.workdir, "replay_obs.ndjson")
+    open(tr, "w").write(out)
+    nruns, bad, res = judge_trace(tr)
+    ctx.coverage["traces_validated_against_impl"] += nruns
+    ctx.coverage["evaluations"] += len(sched)
+    ctx.coverage["distinct_nontrivial"] += 2
+    ctx.sample({"schedule": sched})
+    for b in bad:
+        ctx.report("replay|" + b["why"][:60], b["why"], rep)
+
+
+# ----------------------------------------------------------------------------- direction B
+
+def mode_name(c):
+    return "v7" if c["V7"] else ("v6tok" if c["TokenMode"] else "v6plain")
+
+
+MODES = {
+    "v6tok": dict(V7=False, TokenMode=True, SeqStart=0, InitOnline=False),
+    "v6plain": dict(V7=False, TokenMode=False, SeqStart=0, InitOnline=False),
+    "v7": dict(V7=True, TokenMode=True, SeqStart=0, InitOnline=False),
+    "v6wrap": dict(V7=False, TokenMode=True, SeqStart=900, InitOnline=True),
+    "v7wrap": dict(V7=True, TokenMode=True, SeqStart=900, InitOnline=True),
+}
+
+TRACE_CFG = """SPECIFICATION TraceSpec
+CONSTANTS
+  V7 = %(V7)s
+  TokenMode = %(TokenMode)s
+  SeqStart = %(SeqStart)s
+  Sizes = {1}
+  Senders = {"c", "s"}
+  MaxVital = 1000000
+  MaxNV = 1000000
+  MaxConnless = 1000000
+  MaxInFlight = 1000000
+  MaxFaults = 1000000
+  MaxClock = 1000000
+  MaxForge = 1000000
+  MaxDisc = 1000000
+  Reasons = {0}
+  InitOnline = %(InitOnline)s
+VIEW TraceView
+INVARIANTS C01 C04 C02Deadline C03Tokens
+POSTCONDITION TraceAccepted
+"""
+
+
+def drive_and_validate(ctx, bins, prop, mname, scenario, seed, events, extra=None):
+    """Record a trace of the real code and validate it against ConnSys (strict); if the strict spec
+    rejects it, judge the observable behaviour of the same schedule with ChannelTrace.
+    Returns dict(accepted, lines, violations)."""
+    m = MODES[mname]
+    tag = "%s_%s_%d" % (mname, scenario, seed)
+    tr = os.path.join(ctx.workdir, "trace_%s.ndjson" % tag)
+    cmd = [os.path.join(bins, "vh-conn"), "drive"] + mode_args(m) + ["--scenario", scenario, "--seed", str(seed),
+                                                                     "--events", str(events), "--out", tr] + (extra or [])
+    t0 = time.time()
+    rc, out = core.run_harness(cmd, timeout=600)
+    hang = rc == 97
+    if rc not in (0, 97):
+        raise core.ToolError("vh-conn drive failed rc=%s" % rc)
+    lines = core.read_ndjson(tr) if os.path.exists(tr) else []
+    acts = [l["act"] for l in lines]
+    result = {"tag": tag, "lines": len(lines), "accepted": False, "violations": 0, "hang": hang}
+    replay_obj = {"mode": m, "path": acts, "scenario": scenario, "seed": seed}
+    if hang:
+        hact = None
+        for line in out.splitlines():
+            if line.startswith("HANG "):
+                try:
+                    hact = json.loads(line[5:])
+                except Exception:
+                    pass
+        if hact is not None:
+            replay_obj["path"] = acts + [hact]
+        if prop == "C02":
+            ctx.report("hang:drive:%s:%s" % (mname, scenario), "C02: a call into the connection layer did not return (watchdog)", replay_obj)
+            result["violations"] += 1
+        else:
+            ctx.report_drift("trace %s cut short: a call into the library did not return (decided by C02)" % tag)
+    accepted = False
+    if lines and not hang:
+        cfgp = os.path.join(ctx.workdir, "Trace_%s.cfg" % tag)
+        open(cfgp, "w").write(TRACE_CFG % {k: ("TRUE" if v is True else "FALSE" if v is False else v) for k, v in m.items()})
+        ok, res = core.validate_trace("ConnTrace.tla", cfgp, tr, cwd=SPECDIR, timeout=900, heap="4g")
+        ctx.coverage["traces_validated_against_impl"] += 1
+        if res.violated:
+            # an invariant of ConnSys fails on the implementation's own execution
+            p = {"C01": "C01", "C04": "C04", "C02Deadline": "C02", "C03Tokens": "C03"}.get(res.violated, "C04")
+            if p == prop:
+                ctx.report("trace-invariant:%s:%s:%s" % (res.violated, mname, scenario),
+                           "invariant %s violated on a recorded trace of the real code" % res.violated, replay_obj)
+                result["violations"] += 1
+        accepted = ok
+        ctx.coverage["evaluations"] += len(lines)
+        ctx.coverage["states"] += res.distinct
+        ctx.coverage["transitions"] += res.generated
+    result["accepted"] = accepted
+    if not accepted and lines:
+        # property-level judgement of the same schedule (prefix up to the hang, if any)
+        f = os.path.join(ctx.workdir, "sched_%s.json" % tag)
+        json.dump({"path": acts}, open(f, "w"))
+        cmd = [os.path.join(bins, "vh-conn"), "schedule", "--file", f, "--suffix", "0" if hang else "150"] + mode_args(m)
+        rc2, out2 = core.run_harness(cmd, timeout=600)
+        if rc2 == 0:
+            ob = os.path.join(ctx.workdir, "obs_%s.ndjson" % tag)
+            open(ob, "w").write(out2)
+            nruns, bad, _ = judge_trace(ob)
+            ctx.coverage["traces_validated_against_impl"] += nruns
+            if not bad:
+                ctx.report_drift("trace %s deviates from the detailed spec but is accepted by the property-level spec" % tag)
+            for b in bad:
+                p = reason_property(b["why"])
+                if p == prop:
+                    # cut the schedule at the offending line (line 1 is the reset)
+                    cut = max(1, b["line"] - 1)
+                    ro = dict(replay_obj, path=acts[:cut])
+                    if ctx.report("%s|%s|%s" % (b["why"][:60], mname, scenario), b["why"], ro):
+                        result["violations"] += 1
+                else:
+                    ctx.note("trace %s violates %s (%s); reported by that property's check" % (tag, p, b["why"][:80]))
+        elif rc2 == 97 and prop == "C02" and not hang:
+            ctx.report("hang:schedule:%s:%s" % (mname, scenario), "C02: a call did not return (watchdog)", replay_obj)
+            result["violations"] += 1
+    ctx.add_run("trace " + tag, events=len(lines), accepted_by_ConnTrace=accepted, hang=hang, wall_s=round(time.time() - t0, 1))
+    if lines:
+        ctx.sample({"trace": tag, "first_events": acts[:6]}, limit=8)
+    return result
+
+
+# ----------------------------------------------------------------------------- plans
+
+B = base
+
+
+def plans(prop, tier):
+    q = tier == "quick"
+    mc, ex, dr, live = [], [], [], []
+    if prop == "C01":
+        mc = [("v6tok", B(MaxVital=1, MaxNV=1, MaxFaults=1, MaxClock=2)),
+              ("v6plain", B(TokenMode=False, MaxVital=1, MaxNV=1, MaxFaults=1, MaxClock=2)),
+              ("v7", B(V7=True, MaxVital=1, MaxNV=1, MaxFaults=1, MaxClock=2))]
+        ex = [("v6tok-2vital", B(MaxVital=2, MaxFaults=1, MaxClock=1)),
+              ("v6tok-both", B(Senders={"c", "s"}, MaxVital=1, MaxFaults=1, MaxClock=1)),
+              ("v6plain-2vital", B(TokenMode=False, MaxVital=2, MaxFaults=1, MaxClock=1)),
+              ("v7-2vital", B(V7=True, MaxVital=2, MaxFaults=1, MaxClock=1)),
+              ("v6tok-wrap", B(InitOnline=True, SeqStart=1022, MaxVital=2, MaxFaults=1, MaxClock=1))]
+        dr = [(m, "random", 1, 400) for m in ("v6tok", "v6plain", "v7")]
+        if not q:
+            mc += [("v6tok-L", B(Senders={"c", "s"}, MaxVital=1, MaxNV=1, MaxFaults=2, MaxClock=2, MaxInFlight=2)),
+                   ("v7-L", B(V7=True, MaxVital=2, MaxNV=1, MaxFaults=2, MaxClock=2)),
+                   ("v6tok-wrap-L", B(InitOnline=True, SeqStart=1021, MaxVital=3, MaxFaults=2, MaxClock=2))]
+            ex += [("v6tok-nv", B(MaxVital=1, MaxNV=1, MaxFaults=1, MaxClock=2)),
+                   ("v7-nv", B(V7=True, MaxVital=1, MaxNV=1, MaxFaults=1, MaxClock=2)),
+                   ("v6plain-nv", B(TokenMode=False, MaxVital=1, MaxNV=1, MaxFaults=1, MaxClock=2)),
+                   ("v7-both", B(V7=True, Senders={"c", "s"}, MaxVital=1, MaxFaults=1, MaxClock=1)),
+                   ("v7-wrap", B(V7=True, InitOnline=True, SeqStart=1022, MaxVital=2, MaxFaults=1, MaxClock=2)),
+                   ("v6tok-3inflight", B(MaxVital=2, MaxFaults=1, MaxClock=1, MaxInFlight=3))]
+            dr = [(m, "random", s, 1500) for m in ("v6tok", "v6plain", "v7", "v6wrap", "v7wrap") for s in (1, 2, 3)]
+    elif prop == "C02":
+        live = [("v6tok-live", B(MaxVital=1, MaxFaults=1, MaxClock=1)),
+                ("v7-live", B(V7=True, MaxVital=1, MaxFaults=1, MaxClock=1)),
+                ("v6plain-live", B(TokenMode=False, MaxVital=1, MaxFaults=1, MaxClock=1))]
+        ex = [("v6tok-max", B(Sizes={1023}, MaxVital=2, MaxFaults=1, MaxClock=1)),
+              ("v7-max", B(V7=True, Sizes={1387}, MaxVital=2, MaxFaults=1, MaxClock=1)),
+              ("v7-over", B(V7=True, Sizes={1388, 1390}, MaxVital=1, MaxFaults=1, MaxClock=1)),
+              ("v6tok-over", B(Sizes={1024, 1390}, MaxVital=1, MaxFaults=0, MaxClock=1))]
+        dr = [(m, "bigchunks", 1, 0) for m in ("v6tok", "v7")] + [("v7", "random", 1, 400)]
+        if not q:
+            live += [("v6tok-live-L", B(MaxVital=2, MaxNV=1, MaxFaults=1, MaxClock=2)),
+                     ("v7-live-L", B(V7=True, MaxVital=2, MaxFaults=1, MaxClock=2))]
+            ex += [("v6tok-max-nv", B(Sizes={1, 1023}, MaxVital=2, MaxNV=1, MaxFaults=1, MaxClock=1)),
+                   ("v7-max-both", B(V7=True, Sizes={1387}, Senders={"c", "s"}, MaxVital=1, MaxFaults=1, MaxClock=2)),
+                   ("v6plain-max", B(TokenMode=False, Sizes={1023}, MaxVital=2, MaxFaults=1, MaxClock=2))]
+            dr = [(m, "bigchunks", 1, 0) for m in ("v6tok", "v6plain", "v7")] + \
+                 [(m, "random", s, 1500) for m in ("v6tok", "v6plain", "v7") for s in (11, 12)]
+    elif prop == "C03":
+        mc = [("v6tok-forge", B(MaxForge=1, MaxVital=1, MaxFaults=1, MaxClock=1)),
+              ("v7-forge", B(V7=True, MaxForge=1, MaxVital=1, MaxFaults=1, MaxClock=1))]
+        ex = [("v6tok-forge", B(MaxForge=1, MaxVital=1, MaxFaults=0, MaxClock=1)),
+              ("v7-forge", B(V7=True, MaxForge=1, MaxVital=1, MaxFaults=0, MaxClock=1)),
+              ("v7-forge-disc", B(V7=True, MaxForge=1, MaxVital=0, MaxFaults=0, MaxClock=0, MaxDisc=1))]
+        dr = [(m, "random", 5, 500) for m in ("v6tok", "v7")]
+        if not q:
+            mc += [("v6tok-forge-L", B(MaxForge=1, MaxVital=2, MaxNV=1, MaxFaults=1, MaxClock=2)),
+                   ("v7-forge-L", B(V7=True, MaxForge=2, MaxVital=1, MaxFaults=1, MaxClock=2))]
+            ex += [("v6tok-forge2", B(MaxForge=2, MaxVital=1, MaxFaults=0, MaxClock=1)),
+                   ("v7-forge-both", B(V7=True, MaxForge=1, Senders={"c", "s"}, MaxVital=1, MaxFaults=0, MaxClock=1)),
+                   ("v6tok-forge-wrap", B(MaxForge=1, InitOnline=True, SeqStart=1023, MaxVital=1, MaxFaults=0, MaxClock=1))]
+            dr = [(m, "random", s, 1500) for m in ("v6tok", "v7") for s in (5, 6, 7)]
+    elif prop == "C04":
+        mc = [("v6tok-sizes", B(Sizes={0, 1023, 1024}, MaxVital=1, MaxNV=1, MaxFaults=0, MaxClock=1, MaxConnless=1, MaxDisc=1, Reasons={0, 127})),
+              ("v7-sizes", B(V7=True, Sizes={0, 1387, 1388}, MaxVital=1, MaxNV=1, MaxFaults=0, MaxClock=1, MaxConnless=1, MaxDisc=1, Reasons={0, 127}))]
+        ex = [("v6tok-limits", B(Sizes={1023, 1024}, MaxVital=1, MaxNV=1, MaxFaults=0, MaxClock=1)),
+              ("v7-limits", B(V7=True, Sizes={1387, 1388}, MaxVital=1, MaxNV=1, MaxFaults=0, MaxClock=1)),
+              ("v6plain-disc", B(TokenMode=False, Sizes={0}, MaxVital=1, MaxConnless=1, MaxFaults=0, MaxClock=1, MaxDisc=1, Reasons={0, 127})),
+              ("v7-disc", B(V7=True, Sizes={0, 1390, 1391}, MaxVital=0, MaxConnless=1, MaxFaults=0, MaxClock=1, MaxDisc=1, Reasons={0, 127}))]
+        dr = [(m, sc, 1, 0) for m in ("v6tok", "v7") for sc in ("smallchunks", "bigchunks")]
+        if not q:
+            ex += [("v6tok-limits-faults", B(Sizes={0, 1023}, MaxVital=2, MaxNV=1, MaxFaults=1, MaxClock=1)),
+                   ("v7-limits-faults", B(V7=True, Sizes={0, 1387}, MaxVital=2, MaxNV=1, MaxFaults=1, MaxClock=1)),
+                   ("v6tok-connless", B(Sizes={0, 1390, 1391}, MaxVital=0, MaxConnless=2, MaxFaults=0, MaxClock=1, MaxDisc=1, Reasons={1, 126}))]
+            dr = [(m, sc, 1, 0) for m in ("v6tok", "v6plain", "v7") for sc in ("smallchunks", "bigchunks")] + \
+                 [(m, "random", s, 1500) for m in ("v6tok", "v6plain", "v7") for s in (21, 22)]
+    return mc, live, ex, dr
+
+
+def run_property(ctx, prop):
+    bins = core.build_harness(["vh-conn"])
+    mc, live, ex, dr = plans(prop, ctx.tier)
+    par = 6 if ctx.tier == "quick" else 8
+    ctx.coverage["rule"] = ("model checking of ConnSys (TLC, all interleavings within the listed constants); every generated "
+                            "transition of the export configurations replayed on two real Connections with the complete projected "
+                            "state compared (distinct = distinct spec states reached on the real code); recorded traces of seeded "
+                            "drivers validated line by line against ConnSys (ConnTrace); deviations judged by the property-level "
+                            "spec ChannelTrace")
+    ctx.assumptions += ["the application drains every event iterator", "fewer than 512 vital chunks unacknowledged",
+                        "no datagram delayed across 1024 sequence numbers", "callers only make calls the state permits",
+                        "verif hook projection (connection::verif) is faithful to the private state"]
+    # 1. the model itself
+    jobs = [(model_check, (ctx, n, c, 3, 1500 if ctx.tier == "thorough" else 400, False)) for n, c in mc]
+    jobs += [(model_check, (ctx, n, c, 3, 2400 if ctx.tier == "thorough" else 400, True)) for n, c in live]
+    for (n, c), res in zip(mc + live, run_parallel(jobs, 4)):
+        if not res.ok:
+            ctx.report("model:%s:%s" % (n, res.violated or "error"),
+                       "the specification itself violates %s: %s" % (res.violated, (res.error or res.out[-1500:])),
+                       {"config": n, "constants": {k: str(v) for k, v in c.items()}, "tlc": res.out[-3000:]})
+    # 2. direction A
+    sums = run_parallel([(export_replay, (ctx, bins, n, c, 3000 if ctx.tier == "thorough" else 600)) for n, c in ex], par)
+    for s in sums:
+        account(ctx, s)
+        judge_summary(ctx, s, prop)
+    # 3. direction B
+    results = run_parallel([(drive_and_validate, (ctx, bins, prop, m, sc, ctx.seed * 1000 + sd, ev)) for m, sc, sd, ev in dr], par)
+    ctx.coverage["exhaustive"] = False
+    return sums, results
